@@ -1,4 +1,5 @@
 import PsVerif.Gen.LockOrder
+import PsVerif.Gen.ChanSends
 /-
 C18  Event handling never deadlocks.
 
@@ -11,7 +12,9 @@ Two parts.
     The expectations: every lock expression was named, and every edge goes up in the rank order below —
     in particular nothing is acquired while a watcher lock is held (callbacks run outside), and the per-swap
     mutex is never re-acquired below itself.
-What this does not cover: blocking on channels and condition variables, and locks inside dependencies
+(3) Channel sends (Gen/ChanSends.lean, go/ast): the complete list of send statements of the program with the way
+    each can block; the block dispatcher's sends to the observers are each the business of their own goroutine.
+What this does not cover: blocking on channel receives and condition variables, and locks inside dependencies
 (bbolt, gRPC, the Lightning clients); monitor C18 runs the real watchers and service concurrently with
 watchdogs for that.
 -/
@@ -140,5 +143,27 @@ example : FollowsEdges ⟨[("swap.SwapStateMachine.mutex", 7)], some ("txwatcher
   simp only [Bool.and_eq_true, beq_iff_eq] at hp
   exact ⟨e, he, hp.1, hp.2⟩
 example : lockEdges.length > 10 := by decide
+
+/-! ### (3) channel sends -/
+
+/-- every channel send of the program, and how it can block its goroutine -/
+theorem C18_channel_sends : chanSends = [
+    ("clightning/clightning.go", "onInit", "cl.initChan", "plain"),
+    ("cmd/peerswaplnd/peerswapd/main.go", "run", "shutdown", "plain"),
+    ("lnd/txwatcher.go", "addTxWatcher", "confChan", "plain"),
+    ("lnd/txwatcher.go", "addTxWatcher", "errChan", "plain"),
+    ("lnd/txwatcher.go", "addTxWatcher", "errChan", "plain"),
+    ("peerswaprpc/server.go", "Stop", "p.sigchan", "plain"),
+    ("peersync/message_bus.go", "publish", "ch", "select-default"),
+    ("txwatcher/rpctxwatcher.go", "AddWaitForConfirmationTx", "newBlock", "plain"),
+    ("txwatcher/rpctxwatcher.go", "StartBlockWatcher", "s.newBlockChan", "plain"),
+    ("txwatcher/rpctxwatcher.go", "StartWatchingTxs", "obs.blockChan", "go")] := by decide
+
+/-- the loop that hands a new block to every confirmation observer never waits for one of them: each hand-over is
+    a goroutine of its own (an observer that is busy in its callback, or gone, cannot stop block handling and with
+    it the CSV reports of other swaps); the publisher of the peer-sync bus never waits for a subscriber -/
+theorem C18_dispatchers_do_not_wait :
+    (chanSends.filter (fun s => s.2.1 == "StartWatchingTxs" || s.2.1 == "publish")).all (fun s => s.2.2.2 == "go" || s.2.2.2 == "select-default") = true := by
+  decide
 
 end PsVerif.Props.C18
